@@ -238,6 +238,43 @@ impl Report {
             "fresh_violation_classes".into(),
             json!(seen.iter().map(|(k, v)| json!({"kind": k.0, "class": k.1, "count": v})).collect::<Vec<_>>()),
         );
+        // coverage audit of the driver (scenario features, singly and in pairs)
+        if let Some(m) = crate::explore::AUDIT.lock().unwrap().take() {
+            let mut values: BTreeMap<String, u64> = BTreeMap::new();
+            let mut pairs: std::collections::BTreeSet<(String, String)> = std::collections::BTreeSet::new();
+            for ((a, b), n) in &m {
+                if b.is_empty() {
+                    values.insert(a.clone(), *n);
+                } else {
+                    pairs.insert((a.clone(), b.clone()));
+                }
+            }
+            let feat = |v: &str| v.split('=').next().unwrap_or("").to_owned();
+            let vals: Vec<&String> = values.keys().collect();
+            let mut possible = 0u64;
+            let mut missing: Vec<String> = Vec::new();
+            for i in 0..vals.len() {
+                for j in i + 1..vals.len() {
+                    if feat(vals[i]) == feat(vals[j]) {
+                        continue;
+                    }
+                    possible += 1;
+                    if !pairs.contains(&(vals[i].clone(), vals[j].clone())) && !pairs.contains(&(vals[j].clone(), vals[i].clone())) {
+                        missing.push(format!("{} & {}", vals[i], vals[j]));
+                    }
+                }
+            }
+            cov.insert("driver_feature_audit".into(), json!({
+                "what": "every scenario handed to the explorer is described by ~35 features (topology, window/delay classes, saving mode, desync detection, application behaviour, scripted actions, fault kinds, exploration mode); counted are the scenarios per feature value and the pairs of values of different features that occurred together in at least one scenario",
+                "feature_values_seen": values,
+                "value_pairs_possible": possible,
+                "value_pairs_driven": possible - missing.len() as u64,
+            }));
+            if std::env::var("VERIF_AUDIT").is_ok() {
+                let _ = std::fs::create_dir_all(format!("{verif}/audit"));
+                let _ = std::fs::write(format!("{verif}/audit/{}.json", self.prop), serde_json::to_string_pretty(&json!({"values": values, "missing_pairs": missing})).unwrap());
+            }
+        }
         let ev = json!({
             "property_id": self.prop,
             "tier": self.tier,
